@@ -93,6 +93,7 @@ type hookFactory struct {
 }
 
 func (f *hookFactory) AcquirePage(index int64) (page.MappedPage, error) {
+	cinj.hit(f.key, "acquire")
 	p, err := f.Factory.AcquirePage(index)
 	if err != nil {
 		return nil, err
@@ -115,7 +116,13 @@ type hookPage struct {
 
 func (p *hookPage) PutUint64(value uint64, offset int) {
 	inj.before(p.key, "put", offset)
+	cinj.hit(p.key, "put")
 	p.MappedPage.PutUint64(value, offset)
+}
+
+func (p *hookPage) ReadUint64(offset int) uint64 {
+	cinj.hit(p.key, "read")
+	return p.MappedPage.ReadUint64(offset)
 }
 
 func (p *hookPage) Sync() error {
@@ -128,11 +135,14 @@ func (p *hookPage) Sync() error {
 // element of its directory (the group name, or "meta").
 func installPages() {
 	queue.VerifSetPageFactory(func(path string, pageSize int) (page.Factory, error) {
+		key := filepath.Base(path)
+		if key != "data" && key != "index" {
+			cinj.hit(key, "factory") // create_pair_test.go: the page factory of a consumer group is about to be built
+		}
 		f, err := page.NewFactory(path, pageSize)
 		if err != nil {
 			return nil, err
 		}
-		key := filepath.Base(path)
 		if key == "data" || key == "index" {
 			return f, nil
 		}
@@ -142,6 +152,7 @@ func installPages() {
 
 func uninstallPages() {
 	inj.disarm()
+	cinj.disarm()
 	queue.VerifSetPageFactory(nil)
 }
 
